@@ -33,6 +33,7 @@ package ecs
 //@   requires other != nil
 //@   serves C08 C20
 //@   ensures union: forall i uint8 :: m256has(*b, i) == (old(m256has(*b, i)) || old(m256has(*other, i)))
+//@   ensures words: b.bits[0] == old(b.bits[0]) | old(other.bits[0]) && b.bits[1] == old(b.bits[1]) | old(other.bits[1]) && b.bits[2] == old(b.bits[2]) | old(other.bits[2]) && b.bits[3] == old(b.bits[3]) | old(other.bits[3])
 //@   modifies b.bits
 
 //@ func (*bitMask256).IsZero
@@ -99,6 +100,7 @@ package ecs
 //@   requires other != nil
 //@   serves C20
 //@   ensures union: forall i uint8 :: m64has(*b, i) == (old(m64has(*b, i)) || old(m64has(*other, i)))
+//@   ensures words: b.bits == old(b.bits) | old(other.bits)
 //@   modifies b.bits
 
 //@ func (*bitMask64).IsZero
